@@ -19,9 +19,10 @@ class FakeFile:
     store = {}
     opened = []
 
-    def __init__(self, name, mode="r", encoding=None, **kw):
+    def __init__(self, name, mode="r", encoding=None, errors=None, **kw):
         self.name, self.mode, self.buf = name, mode, []
         self.encoding = encoding
+        self.errors = errors or "strict"
         FakeFile.opened.append((name, mode))
 
     def write(self, s):
@@ -31,14 +32,14 @@ class FakeFile:
         text = FakeFile.store[self.name]
         if self.encoding and self.encoding.lower().replace("-", "") not in ("utf8",):
             # the stored text is what a UTF-8 file on disk contains: reading it with another codec mangles non-ASCII
-            text = text.encode("utf-8").decode(self.encoding, errors="replace")
+            text = text.encode("utf-8").decode(self.encoding, errors=self.errors)
         return text
 
     def close(self):
         if "w" in self.mode:
             text = "".join(self.buf)
             if self.encoding and self.encoding.lower().replace("-", "") not in ("utf8",):
-                text = text.encode(self.encoding, errors="replace").decode("utf-8", errors="replace")
+                text = text.encode(self.encoding, errors=self.errors).decode("utf-8", errors="replace")
             FakeFile.store[self.name] = text
 
     def __enter__(self):
@@ -276,13 +277,13 @@ FIELDS = [("running example", None), ("message", "msg"), ("number of states", "n
           ("total time", "total_time")]
 KEYS = ["n_states", "n_transitions", "n_iterations_reach", "n_iterations_rew", "reachability_strategies", "final_strategies",
         "total_time", "msg", "rewards", "rew_min_reach", "probabilities", "prob_min_rew"]
-PATHS = [("inputs/x_1.py", "x_1"), ("a/b/game_2b.v2.py", "game_2b"), ("plain.py", "plain"), ("noext", "noext"),
+PATHS = [("inputs/maze_copy.py", "maze_copy"), ("copy.py", "copy"), ("inputs/x_1.py", "x_1"), ("a/b/game_2b.v2.py", "game_2b"), ("plain.py", "plain"), ("noext", "noext"),
          ("./d.e/f_g.py", "f_g"), ("inputs/robot_1_w2_l2_r6_rb10_lb5_tb10_lt0.py", "robot_1_w2_l2_r6_rb10_lb5_tb10_lt0")]
 
 
 @harness("report.save", props=["C16"], jobs=lambda tier, seed: [dict(nentries=k, path=p) for k in (0, 1, 2, 3) for p in range(len(PATHS))],
          covers=["equal", "not_equal"], stubs=["open -> in-memory file"],
-         bounds="result dictionaries of 0..3 entries whose every value is an opaque token (parametric in the values); 6 input paths",
+         bounds="result dictionaries of 0..3 entries whose every value is an opaque token (parametric in the values); 8 input paths",
          assumes=["parametricity: the writer cannot inspect a token, so what holds for tokens holds for every value",
                   "repr/eval round trip of Python literals is a CPython guarantee (trusted)"],
          desc="real save_results_to_file: file outputs/<stem>.txt; one block per entry in order; the 14 labelled lines once each in "
@@ -365,7 +366,7 @@ class _Args:
 
 
 def _main_jobs(tier, seed):
-    return [dict(save=s, path=p) for s in (True, False) for p in (0, 1)]
+    return [dict(save=s, path=p) for s in (True, False) for p in (0, 2, 3)]
 
 
 @harness("report.main", props=["C16"], jobs=_main_jobs, covers=["saved", "not_saved"],
